@@ -267,6 +267,10 @@ NOT_YET = {}
 
 # extension areas (not properties): id -> one-line description, see DESIGN.md section 11
 EXTENSIONS = {
+    'X01': 'machine files: sections, constants, composition of several files, wiring into properties/options/binaries (specs/machinefile)',
+    'X03': 'meson compile: target expression resolution and backend command construction (specs/mcompile)',
+    'X05': 'Xcode backend: integrity of the generated project object graph and faithfulness to the build definition (specs/xcode)',
+    'X06': 'pkg-config file generator: field contents, visibility, order constraints, uninstalled variant (specs/pkgconfig)',
     'X02': 'command-template substitution of custom_target/generator/configure_file and Makefile-style depfiles (specs/cmdsubst)',
     'X07': 'option definition files (restricted expression language, option() declaration rules) and deprecated-option translation (specs/optfile)',
 }
